@@ -5,11 +5,11 @@ EXTENDS ToFunction, Json, IOUtils
 VARIABLE meth
 Seed == atoi(IOEnv.VERIF_SEED)
 Thorough == IOEnv.VERIF_TIER = "thorough"
-Scen == {s \in [meth : {"MS", "SS", "DC"}, args : (SUBSET ArgNames) \ {{}}, pre : [ArgNames -> Vals \cup {0}], post : {"none", "p", "q", "gx"},
+Scen == {s \in [meth : {"MS", "SS", "DC"}, args : (SUBSET ArgNames) \ {{}}, pre : [ArgNames -> Vals \cup {0}], post : {"none", "p", "q", "gx", "edit"},
                vals : [ArgNames -> Vals], iters : {0, 50}, scaled : BOOLEAN, remake : BOOLEAN, multi : BOOLEAN, cat : BOOLEAN] :
            /\ s.pre.p # 0 /\ s.pre.q # 0
            /\ (~Thorough => (s.pre.gu = 0 /\ s.vals.gu = 1 /\ (s.pre.gx = 0 \/ "gx" \in s.args)))
-           /\ (s.remake => s.post # "none")
+           /\ (s.remake => s.post # "none") /\ (s.post = "edit" => s.remake /\ ~s.multi)
            \* two stages cloned from one template: p / q are the values of the template's parameter in stage 1 / stage 2
            /\ (s.multi => s.args \subseteq {"p", "q"} /\ s.post # "gx" /\ ~s.scaled /\ s.iters = 50 /\ s.pre.gx = 0 /\ s.pre.gu = 0 /\ s.vals.gx = 1 /\ s.vals.gu = 1)
            \* imperative values given through one set_value on a concatenation (matrix parameter first, then p): same meaning
@@ -20,7 +20,8 @@ Scen == {s \in [meth : {"MS", "SS", "DC"}, args : (SUBSET ArgNames) \ {{}}, pre 
 InitS == meth \in Scen /\ Init
 NextS == UNCHANGED <<vars, meth>>
 Emit == LET s == meth
-            snap == IF s.remake THEN [s.pre EXCEPT ![s.post] = 3] ELSE s.pre
+            \* "edit": an inactive constraint is added in between (forces a re-transcription, changes no value)
+            snap == IF s.remake /\ s.post # "edit" THEN [s.pre EXCEPT ![s.post] = 3] ELSE s.pre
             f == [args |-> s.args, snap |-> snap]
         IN TLCSet(1, Append(TLCGet(1), [sc |-> [meth |-> s.meth, args |-> s.args, pre |-> s.pre, post |-> s.post, vals |-> s.vals, iters |-> s.iters, scaled |-> s.scaled, remake |-> s.remake, multi |-> s.multi, cat |-> s.cat],
                                         data |-> DataOfCall(f, s.vals)]))
